@@ -122,6 +122,35 @@ theorem C12_bmp_reuse_sequence {α} (f : PixFmt α) (hf : f.Lawful) (hsz : f.siz
   C12_reuse_sequence junk hj _ _ imgs dest wd (fun i hi =>
     ⟨(hall i hi).1, C12_bmp_roundtrip f hf hsz i (hall i hi).1 (hall i hi).2.1 (hall i hi).2.2.1 (hall i hi).2.2.2⟩)
 
+theorem C12_targa_reuse_sequence {α} (f : PixFmt α) (hf : f.Lawful) (hsz : f.size = 3 ∨ f.size = 4)
+    (junk : Nat → Nat → Img α) (hj : JunkOk junk) (dest : Img α) (wd : dest.WF) (imgs : List (Img α))
+    (hall : ∀ i ∈ imgs, i.WF ∧ 1 ≤ i.w ∧ i.w < 65536 ∧ 1 ≤ i.h ∧ i.h < 65536) :
+    runSeq (initImage junk) (encodeTga f) (decodeTga f) dest imgs = imgs.map some :=
+  C12_reuse_sequence junk hj _ _ imgs dest wd (fun i hi =>
+    ⟨(hall i hi).1, C12_targa_roundtrip f hf hsz i (hall i hi).1 (hall i hi).2.1 (hall i hi).2.2.1 (hall i hi).2.2.2.1 (hall i hi).2.2.2.2⟩)
+
+theorem C12_pnm_reuse_sequence {α} (f : PixFmt α) (hf : f.Lawful) (t : Nat) (ht : (t = 5 ∧ f.size = 1) ∨ (t = 6 ∧ f.size = 3))
+    (junk : Nat → Nat → Img α) (hj : JunkOk junk) (dest : Img α) (wd : dest.WF) (imgs : List (Img α))
+    (hall : ∀ i ∈ imgs, i.WF ∧ PnmIntOk i.w ∧ PnmIntOk i.h) :
+    runSeq (initImage junk) (encodePnm f t) (decodePnm f t) dest imgs = imgs.map some :=
+  C12_reuse_sequence junk hj _ _ imgs dest wd (fun i hi =>
+    ⟨(hall i hi).1, C12_pnm_roundtrip f hf t ht i (hall i hi).1 (hall i hi).2.1 (hall i hi).2.2⟩)
+
+theorem C12_pnm_mono_reuse_sequence (junk : Nat → Nat → Img Bool) (hj : JunkOk junk) (dest : Img Bool) (wd : dest.WF) (imgs : List (Img Bool))
+    (hall : ∀ i ∈ imgs, i.WF ∧ PnmIntOk i.w ∧ PnmIntOk i.h) :
+    runSeq (initImage junk) encodePnmMonoFixedExec decodePnmMonoFixed dest imgs = imgs.map some :=
+  C12_reuse_sequence junk hj _ _ imgs dest wd (fun i hi =>
+    ⟨(hall i hi).1, C12_pnm_mono_roundtrip_proposed_fix_exec i (hall i hi).1 (hall i hi).2.1 (hall i hi).2.2⟩)
+
+def junkFalse' : Nat → Nat → Img Bool := fun w h => ⟨w, h, List.replicate h (List.replicate w false)⟩
+
+/-- with the defective init_image the sequence theorem fails already for two images that share the width -/
+theorem C12_reuse_sequence_both_differ_witness :
+    runSeq (initImageBothDiffer junkFalse') (fun i => if i.h = 2 then [2] else [1])
+      (fun b _ => if b = [2] then some ⟨1, 2, [[true], [false]]⟩ else some ⟨1, 1, [[true]]⟩) emptyImg
+      [⟨1, 2, [[true], [false]]⟩, ⟨1, 1, [[true]]⟩]
+    = [some ⟨1, 2, [[true], [false]]⟩, some ⟨1, 2, [[true], [false]]⟩] := by decide
+
 /-! non-vacuity and the defect the clause excludes -/
 
 def junkFalse : Nat → Nat → Img Bool := fun w h => ⟨w, h, List.replicate h (List.replicate w false)⟩
